@@ -956,8 +956,7 @@ theorem withoutSegment_congr {segs segs' : List Seg} (h : segs'.map (·.secs) = 
   have : ∀ l : List Seg, (l.any fun g => g.secs.any fun k => k.toNat == i) =
       ((l.map (·.secs)).any fun ks => ks.any fun k => k.toNat == i) := by
     intro l; rw [List.any_map]; rfl
-  unfold withoutSegment
-  rw [this segs', this segs, h]
+  rw [withoutSegment_eq, withoutSegment_eq, this segs', this segs, h]
 
 theorem fileBytesOf_saved {a b : SecBuf} (h : C05.SecSaved a b) (hr : ResidentFull a) :
     ResidentFull b ∧ fileBytesOf b = fileBytesOf a := by
@@ -1317,8 +1316,7 @@ structure OutRel (x y : SecBuf) : Prop where
 theorem OutRel.setOffset {x y : SecBuf} (h : OutRel x y) (c : Cls) (p : BitVec 64) :
     OutRel (setOffset c x p) (setOffset c y p) := by
   have hi : (x.index != 0) = (y.index != 0) := by rw [h.index]
-  unfold ElfioVerif.setOffset
-  rw [hi]
+  rw [setOffset_eq, setOffset_eq, hi]
   split
   · exact ⟨h.settledX, h.settledY, h.index, h.nameOff, h.stype, h.flags, h.addr, rfl, h.size, h.link, h.info,
       h.addrAlign, h.entSize, h.written, h.data⟩
@@ -1352,7 +1350,7 @@ theorem saveSection_congr (c : Cls) (enc : Enc) (shoff : BitVec 64) (se : BitVec
       x.data.isSome) = (y.stype != BitVec.ofNat 32 SHT_NOBITS && y.stype != BitVec.ofNat 32 SHT_NULL && y.size != 0 &&
       y.data.isSome) := h.written
   unfold saveSection
-  simp only [henc, h.index, hw]
+  simp only [henc, h.index, secWritesData_eq, hw]
   split
   · rename_i hc
     have := h.data hc
